@@ -154,11 +154,12 @@ class C12(Prop):
         ddl = self.text(case)
         # primary_key must name declared columns - asserted where the model spells key columns exactly as declared (not for the
         # corpus and not for 're-spelled' tables, whose clauses may name another identifier than the column)
-        generated = case["src"] == "gen" and not any(b["k"] == "rtable" for b in case["blocks"])
+        generated = (case["src"] == "gen" and not any(b["k"] == "rtable" for b in case["blocks"])) or \
+            (case["src"] == "corpus" and bool(universe.corpus()[case["item"]].get("wellformed")))  # texts written for this harness: keys name declared columns
         out.label("src:" + case["src"])
         if case["src"] == "gen" and any(b["k"] == "raw" and b["c"].get("family") == "redeclare" for b in case["blocks"]):
             out.label("table_declared_twice")
-        rich = generated and any(b["k"] in ("ctable", "alter", "dtable", "xtable") for b in case["blocks"])
+        rich = generated and case["src"] == "gen" and any(b["k"] in ("ctable", "alter", "dtable", "xtable") for b in case["blocks"])
         for cfg in case["configs"]:
             r = loader.try_parse(ddl, **cfg)
             out.parses += 1
